@@ -1,5 +1,23 @@
-/* Contracts for the NanoVM reference-counted heap, src/nanovm/heap.c (C14.heap.*).
- * (first step: vm_retain only)
+/* Contracts for the NanoVM reference-counted heap, src/nanovm/heap.c (C14.heap.*, DESIGN 4.2).
+ *
+ * Value well-formedness (VAL_WF of DESIGN 4.1) as used here: a value whose tag is a heap tag is NULL or points to a
+ * live object whose header.obj_type equals the tag.  TAG_FUNCTION values are closures (the VM never builds a bare
+ * function-index value: codegen emits CLOSURE_NEW with zero captures for a function reference); hash maps are left out
+ * of this unit (see obligations/c14.py META).
+ *
+ * vm_release is recursive over the object graph.  CBMC has no recursive predicates, so ONE level of the graph is
+ * materialised and the ghost flag __verif_h.lvl says how much of the ARGUMENT of a call is materialised:
+ *     2  the call under proof: the object, its element store and the HEADER of the child at the ghost index __verif_hk
+ *     1  a recursive call on that child (release_* loop iteration i == __verif_hk): its header only
+ *     0  a recursive call on any other child: nothing is known, nothing is claimed, nothing is assigned
+ * The harness sets lvl = 2; ghost statements inserted in front of the recursive calls (contracts/loops/heap.c.loops)
+ * set lvl = (i == __verif_hk).  With --enforce-contract-rec the recursive calls are replaced by THIS contract, whose
+ * clauses at lvl 1 are literally the header-level clauses proved at lvl 2 (induction hypothesis on depth).  What is
+ * NOT machine-checked (glue, listed in META): that a child's own children are well-formed (VAL_WF holds of the whole
+ * heap), and that releasing the children at indices != __verif_hk does not free the child at __verif_hk (that is the
+ * census invariant ref_count >= indeg of C14.step.*).
+ *
+ * Kind of the object under proof at lvl 2: -DVERIF_HKIND=<tag> (case split, strength X); 0 = scalar / NULL.
  */
 #ifndef HEAP_CONTRACTS_H
 #define HEAP_CONTRACTS_H
@@ -12,14 +30,168 @@
 #define IS_RC(v) (IS_RC_TAG((v).tag) && (v).as.obj != NULL)
 #define HDR(v) ((VmHeapHeader *)(v).as.obj)
 
-/* entry value of the reference count of the object under consideration: an unassigned ghost BOUND by a requires
- * clause (__CPROVER_old() snapshots are taken unconditionally, i.e. also when v is a scalar and the pointer is junk) */
-extern uint32_t __verif_rc0;
+/* ---- the ONE ghost struct of this unit (one assigns target) ---- */
+struct verif_heap_ghost {
+    int lvl;                 /* see above */
+    unsigned kid_calls;      /* vm_release calls delivered to the child at the ghost index (lvl 1 calls) */
+};
+extern struct verif_heap_ghost __verif_h;
+/* ghosts that are never assigned: arbitrary (forall-generalisation), or bound by a requires clause */
+extern uint32_t __verif_hk;     /* index of the child of interest */
+extern uint32_t __verif_hn;     /* element count of the tuple / closure under proof (fixes the object size) */
+extern int      __verif_hkidrc;  /* bound at lvl 2: the child at the ghost index exists and is a heap-tagged non-NULL value */
+extern void    *__verif_hstore;  /* bound at lvl 2: the element store of the object under proof */
+extern uint32_t __verif_hstn;    /* bound at lvl 2: the number of entries of that store */
+extern uint32_t __verif_rc0;    /* entry value of the reference count of the object under consideration
+                                   (__CPROVER_old() snapshots are taken unconditionally, i.e. also when v is a scalar
+                                   and the pointer is junk: the entry value is bound by a requires clause instead) */
 
+#ifndef VERIF_HKIND
+#define VERIF_HKIND 0
+#endif
+
+/* resource bounds (assumptions, META): element counts for which  count * sizeof(NanoValue)  and the doubling in
+ * array_grow stay far away from uint32 wrap */
+#define HEAP_MAX_ELEMS (1u << 20)
+
+/* =====================================================================================================
+ * vm_retain: only the reference count of a heap-tagged non-NULL value, +1; nothing for scalars / NULL
+ * ===================================================================================================== */
 void vm_retain(NanoValue v)
 __CPROVER_requires(!IS_RC_TAG(v.tag) || v.as.obj == NULL || VERIF_FRESH(v.as.obj, sizeof(VmHeapHeader)))
 __CPROVER_requires(IS_RC(v) ==> HDR(v)->ref_count == __verif_rc0)
 __CPROVER_assigns(IS_RC(v): HDR(v)->ref_count)
 __CPROVER_ensures(IS_RC(v) ==> HDR(v)->ref_count == __verif_rc0 + 1u);
+
+/* =====================================================================================================
+ * vm_release
+ * ===================================================================================================== */
+/* the element store / element count / child of the object under proof, per kind */
+#if VERIF_HKIND == 7        /* TAG_ARRAY */
+#define REL_OBJ_SIZE sizeof(VmArray)
+#define REL_COUNT(v) ((v).as.array->length)
+#define REL_STORE(v) ((v).as.array->elements)
+#define REL_STORE_N(v) ((v).as.array->capacity)
+#define REL_SHAPE(v) ((v).as.array->capacity >= 1 && (v).as.array->capacity <= HEAP_MAX_ELEMS && (v).as.array->length <= (v).as.array->capacity)
+#define REL_HAS_STORE 1
+#elif VERIF_HKIND == 8      /* TAG_STRUCT */
+#define REL_OBJ_SIZE sizeof(VmStruct)
+#define REL_COUNT(v) ((v).as.sval->field_count)
+#define REL_STORE(v) ((v).as.sval->fields)
+#define REL_STORE_N(v) ((v).as.sval->field_count)
+#define REL_SHAPE(v) ((v).as.sval->field_count <= HEAP_MAX_ELEMS && (v).as.sval->field_names == NULL)
+#define REL_HAS_STORE 1
+#elif VERIF_HKIND == 10     /* TAG_UNION */
+#define REL_OBJ_SIZE sizeof(VmUnion)
+#define REL_COUNT(v) ((uint32_t)(v).as.uval->field_count)
+#define REL_STORE(v) ((v).as.uval->fields)
+#define REL_STORE_N(v) ((uint32_t)(v).as.uval->field_count)
+#define REL_SHAPE(v) 1
+#define REL_HAS_STORE 1
+#elif VERIF_HKIND == 12     /* TAG_TUPLE */
+#define REL_OBJ_SIZE (sizeof(VmTuple) + (size_t)__verif_hn * sizeof(NanoValue))
+#define REL_COUNT(v) ((v).as.tuple->count)
+#define REL_STORE(v) ((v).as.tuple->elements)
+#define REL_SHAPE(v) ((v).as.tuple->count == __verif_hn && __verif_hn <= HEAP_MAX_ELEMS)
+#define REL_HAS_STORE 0
+#elif VERIF_HKIND == 11     /* TAG_FUNCTION: closure */
+#define REL_OBJ_SIZE (sizeof(VmClosure) + (size_t)__verif_hn * sizeof(NanoValue))
+#define REL_COUNT(v) ((uint32_t)(v).as.closure->capture_count)
+#define REL_STORE(v) ((v).as.closure->captures)
+#define REL_SHAPE(v) ((v).as.closure->capture_count == __verif_hn)
+#define REL_HAS_STORE 0
+#elif VERIF_HKIND == 5      /* TAG_STRING */
+#define REL_OBJ_SIZE (sizeof(VmString) + 1)
+#define REL_SHAPE(v) 1
+#define REL_HAS_STORE 0
+#else                       /* scalar / NULL */
+#define REL_OBJ_SIZE sizeof(VmHeapHeader)
+#define REL_SHAPE(v) 1
+#define REL_HAS_STORE 0
+#endif
+#if VERIF_HKIND == 7 || VERIF_HKIND == 8 || VERIF_HKIND == 10 || VERIF_HKIND == 12 || VERIF_HKIND == 11
+#define REL_CONTAINER 1
+#else
+#define REL_CONTAINER 0
+#endif
+
+#define REL_L1(v) (__verif_h.lvl >= 1 && IS_RC(v))          /* header materialised */
+#define REL_L2(v) (__verif_h.lvl == 2 && IS_RC(v))          /* the object under proof */
+#define REL_SIZE ((__verif_h.lvl == 2) ? (size_t)(REL_OBJ_SIZE) : sizeof(VmHeapHeader))
+#if REL_CONTAINER
+#define REL_KID(v) (REL_STORE(v)[__verif_hk])
+#define REL_HAS_KID(v) (REL_L2(v) && __verif_hk < REL_COUNT(v))
+#define REL_KID_RC(v) (REL_HAS_KID(v) && IS_RC(REL_KID(v)))
+#endif
+
+/* the heap descriptor: intern table valid for intern_capacity entries (vm_release of a string walks it) */
+#define HEAP_INTERN_MAX 1024u
+#define HEAP_OK(h) ((h)->intern_capacity >= 1 && (h)->intern_capacity <= HEAP_INTERN_MAX && (h)->intern_count <= (h)->intern_capacity)
+
+void vm_release(VmHeap *heap, NanoValue v)
+/* --- preconditions --- */
+__CPROVER_requires(VERIF_FRESH(heap, sizeof(VmHeap)) && HEAP_OK(heap))
+__CPROVER_requires(VERIF_FRESH(heap->intern_table, (size_t)heap->intern_capacity * sizeof(VmString *)))
+__CPROVER_requires(__verif_h.lvl >= 0 && __verif_h.lvl <= 2)
+__CPROVER_requires(v.tag != TAG_HASHMAP)                                   /* hash maps: not in this unit */
+__CPROVER_requires(__verif_h.lvl != 2 || !IS_RC_TAG(v.tag) || v.tag == VERIF_HKIND)      /* case split, call under proof only */
+/* VAL_WF of the argument (the contract text of the step harnesses' stub, VM_RELEASE_REQUIRES): live header, type matches tag */
+__CPROVER_requires(__verif_h.lvl < 1 || !IS_RC_TAG(v.tag) || v.as.obj == NULL || VERIF_FRESH(v.as.obj, REL_SIZE))
+__CPROVER_requires(REL_L1(v) ==> (HDR(v)->obj_type == v.tag && HDR(v)->ref_count == __verif_rc0))
+/* the object under proof: its shape, its element store, the header of the child at the ghost index */
+__CPROVER_requires(REL_L2(v) ==> REL_SHAPE(v))
+#if REL_HAS_STORE
+__CPROVER_requires(REL_L2(v) ==> ((REL_STORE_N(v) == 0 && REL_STORE(v) == NULL) ||
+                                  (REL_STORE_N(v) != 0 && VERIF_FRESH(REL_STORE(v), (size_t)REL_STORE_N(v) * sizeof(NanoValue)))))
+#endif
+#if REL_HAS_STORE
+__CPROVER_requires(REL_L2(v) ==> (__verif_hstore == (void *)REL_STORE(v) && __verif_hstn == REL_STORE_N(v)))
+#endif
+#if REL_CONTAINER
+__CPROVER_requires(REL_HAS_KID(v) ==> REL_KID(v).tag != TAG_HASHMAP)
+__CPROVER_requires(REL_KID_RC(v) ==> (VERIF_FRESH(REL_KID(v).as.obj, sizeof(VmHeapHeader)) && HDR(REL_KID(v))->obj_type == REL_KID(v).tag))
+__CPROVER_requires(REL_L2(v) ==> __verif_hkidrc == (REL_KID_RC(v) ? 1 : 0))
+#endif
+/* --- frame --- */
+__CPROVER_assigns(__verif_h;
+                  REL_L1(v): HDR(v)->ref_count, __CPROVER_object_whole(heap), __CPROVER_object_whole(heap->intern_table)
+#if REL_CONTAINER
+                  ; REL_KID_RC(v): HDR(REL_KID(v))->ref_count
+#endif
+                  )
+__CPROVER_frees(REL_L1(v): v.as.obj
+#if REL_HAS_STORE
+                ; REL_L2(v): REL_STORE(v)
+#endif
+#if REL_CONTAINER
+                ; REL_KID_RC(v): REL_KID(v).as.obj
+#endif
+                )
+/* --- postconditions: header level (proved at lvl 2 for every kind, used at lvl 1 as induction hypothesis) --- */
+__CPROVER_ensures((REL_L1(v) && __verif_rc0 >= 2) ==> (HDR(v)->ref_count == __verif_rc0 - 1u && HDR(v)->obj_type == v.tag))   /* exactly -1, not freed */
+__CPROVER_ensures((REL_L1(v) && __verif_rc0 == 0) ==> HDR(v)->ref_count == 0)                                             /* no effect */
+__CPROVER_ensures((REL_L1(v) && __verif_rc0 == 1) ==> __CPROVER_was_freed(v.as.obj))                                      /* freed */
+/* the heap descriptor stays well-formed; untouched unless an object dies */
+__CPROVER_ensures(heap->intern_table == __CPROVER_old(heap->intern_table) && heap->intern_capacity == __CPROVER_old(heap->intern_capacity))
+__CPROVER_ensures(heap->intern_count <= __CPROVER_old(heap->intern_count))
+__CPROVER_ensures((!REL_L1(v) || __verif_rc0 != 1) ==> (heap->intern_count == __CPROVER_old(heap->intern_count) &&
+                   heap->stats.freed == __CPROVER_old(heap->stats.freed) && heap->stats.num_objects == __CPROVER_old(heap->stats.num_objects) &&
+                   heap->stats.allocated == __CPROVER_old(heap->stats.allocated)))
+/* ghost bookkeeping: a release delivered to the child of interest is counted; the level flag is the caller's again */
+__CPROVER_ensures(__verif_h.lvl == __CPROVER_old(__verif_h.lvl))
+__CPROVER_ensures(__CPROVER_old(__verif_h.lvl) == 1 ==> __verif_h.kid_calls == __CPROVER_old(__verif_h.kid_calls) + (IS_RC(v) ? 1u : 0u))
+__CPROVER_ensures(__CPROVER_old(__verif_h.lvl) == 0 ==> __verif_h.kid_calls == __CPROVER_old(__verif_h.kid_calls))
+/* --- postconditions: the object under proof --- */
+#if REL_CONTAINER
+/* count == 1: every contained value is released once: the value at the (arbitrary) ghost index got exactly one release */
+__CPROVER_ensures((__CPROVER_old(__verif_h.lvl) == 2 && IS_RC(v)) ==>
+                  __verif_h.kid_calls == __CPROVER_old(__verif_h.kid_calls) + ((__verif_rc0 == 1 && __verif_hkidrc) ? 1u : 0u))
+#else
+__CPROVER_ensures(__CPROVER_old(__verif_h.lvl) == 2 ==> __verif_h.kid_calls == __CPROVER_old(__verif_h.kid_calls))
+#endif
+#if REL_HAS_STORE
+__CPROVER_ensures((REL_L2(v) && __verif_rc0 == 1 && __verif_hstn != 0) ==> __CPROVER_was_freed(__verif_hstore))
+#endif
+;
 
 #endif
